@@ -394,6 +394,27 @@ theorem lifted_split (ids : List Nat) (m : Nat) : sensIdx ids = ids ∧ keptIdx 
   rw [h1]
   simp [CorrRemoverSrc.nonSensitiveIdx, nonSensIdx]
 
+/-- sensitive columns "given by position or by name": through the lifted `_create_lookup` tables, positions resolve to
+    themselves (ndarray) and the names of a DataFrame with distinct column names resolve to their positions, in the
+    order of `sensitive_feature_ids` -/
+theorem src_ids_by_position_or_name (cols : List Nat) (hn : cols.Nodup) (m : Nat) (ids : List Nat) :
+    ((∀ i ∈ ids, i < m) → CorrRemoverSrc.sensitiveIdx (CorrRemoverSrc.lookupArray m) ids = ids) ∧
+    (∀ (h : ∀ i ∈ ids, i < cols.length),
+      CorrRemoverSrc.sensitiveIdx (CorrRemoverSrc.lookupDataFrame cols) (ids.attach.map (fun i => cols[i.1]'(h i.1 i.2))) = ids) := by
+  constructor
+  · intro h
+    simp only [CorrRemoverSrc.sensitiveIdx]
+    conv_rhs => rw [← List.map_id ids]
+    apply List.map_congr_left
+    intro i hi
+    exact lookupArray_eq m i (h i hi)
+  · intro h
+    simp only [CorrRemoverSrc.sensitiveIdx, List.map_map]
+    conv_rhs => rw [← List.attach_map_subtype_val ids]
+    apply List.map_congr_left
+    intro i _
+    exact lookupDataFrame_eq cols hn i.1 (h i.1 i.2)
+
 /-- the model re-built from the lifted text is the model the theorems above are about -/
 theorem src_model_eq (p : Params) (X : Mat) (ids : List Nat) (m : Nat) (β : Mat) :
     transformSrc p X = transform p X ∧ fitMeanSrc ids X = fitMean ids X ∧
@@ -483,6 +504,7 @@ example : nonSensIdx [3, 0] 5 = [1, 2, 4] := by decide +kernel
 example : transform (fitted [0, 1] 3 dupX [[1/2], [0]] 1) dupX = transform (fitted [0, 1] 3 dupX [[1/4], [1/4]] 1) dupX := by
   decide +kernel
 example : CorrL.keptIdx [3, 0] 5 = [1, 2, 4] := by decide +kernel
+example : CorrRemoverSrc.sensitiveIdx (CorrRemoverSrc.lookupDataFrame [7, 5, 9]) [9, 7] = [2, 0] := by decide +kernel
 example : CorrL.isLstsqSrc [0, 1] 3 f2X okβ = true := by decide +kernel
 example : CorrL.transformSrc ⟨[0, 1], 3, CorrL.fitMeanSrc [0, 1] f2X, okβ, 1/2⟩ f2X = [[1/6], [1/6], [2/3]] := by decide +kernel
 
